@@ -16,6 +16,23 @@ pub struct ExSystemTime(SystemTime);
 #[verifier::external_body]
 pub fn verif_now() -> SystemTime { unimplemented!() }
 
+impl StreamId {
+//@@ unit sid_new fn src/storage/stream.rs StreamId::new
+    fn new(millis: u64, seq: u64) -> (r: Self)
+        ensures r.packed == ((millis as u128) << 64) | (seq as u128),
+//@@ body
+//@@ end
+//@@ unit sid_min fn src/storage/stream.rs StreamId::min
+    fn min() -> (r: Self)
+        ensures r.packed == 0,
+//@@ body
+//@@ end
+//@@ unit sid_max fn src/storage/stream.rs StreamId::max
+    fn max() -> (r: Self)
+        ensures r.packed == u128::MAX,
+//@@ body
+//@@ end
+}
 //@@ item src/storage/consumer_groups.rs PendingEntry
 //@@ item src/storage/consumer_groups.rs PendingEntryList
 //@@ item src/storage/stream.rs StreamEntry
@@ -108,6 +125,12 @@ impl PendingEntryList {
     spec fn ids(self) -> Ids { self.entries_by_id@ }
     spec fn idx(self) -> Idx { self.entries_by_consumer@ }
     spec fn wf(self) -> bool { pel_wf_m(self.ids(), self.idx()) && bounds_ok(self.ids(), self.min_pending_id, self.max_pending_id) }
+
+//@@ unit pel_new fn src/storage/consumer_groups.rs PendingEntryList::new
+    fn new() -> (r: Self)
+        ensures r.wf(), r.ids() =~= Map::<StreamId, PendingEntry>::empty(), r.idx() =~= Map::<String, Vec<StreamId>>::empty(),
+//@@ body
+//@@ end
 
 //@@ unit pel_update_bounds fn src/storage/consumer_groups.rs PendingEntryList::update_bounds
 //@@   rewrite RXPR "self.entries_by_id.keys().min().copied()" "verif_min_key(&self.entries_by_id)"
@@ -335,6 +358,9 @@ fn verif_idx_push(m: &mut HashMap<String, Vec<StreamId>>, consumer: String, id: 
 /// `let mut g = self.<field>.write()/lock().unwrap();` is rewritten (RT, listed per unit) to `let g = &mut self.<field>;` — the lock
 /// becomes a plain borrow of the same state (lock order / blocking are not visible to contracts).
 pub struct ConsumerGroup {
+    pub name: String,
+    pub stream_id: StreamId,
+    pub created_at: SystemTime,
     pub pending: PendingEntryList,
     pub consumers: HashMap<String, Consumer>,
     pub consumer_count: usize,
@@ -353,6 +379,20 @@ impl ConsumerGroup {
         &&& self.total_pending == self.pending.ids().dom().len()
         &&& self.consumer_count == self.consumers@.dom().len()
     }
+
+//@@ unit group_new fn src/storage/consumer_groups.rs ConsumerGroup::new
+//@@   rewrite RT "Arc::new(Mutex::new(" "(("
+//@@   rewrite RT "Arc::new(RwLock::new(" "(("
+//@@   rewrite RPCALL "SystemTime::now" verif_now
+    fn new(name: String, stream_id: StreamId) -> (r: Self)
+        ensures r.gwf(),
+            // C16 (XGROUP CREATE): the group starts with its cursor at the id it was created with ($ is resolved by the caller to the
+            // stream's last id: only entries added afterwards are after the cursor), nothing pending, no consumers
+            r.last_delivered_id == stream_id,
+            r.pending.ids() =~= Map::<StreamId, PendingEntry>::empty(), r.consumers@ =~= Map::<String, Consumer>::empty(),
+            r.total_pending == 0, r.consumer_count == 0,
+//@@ body
+//@@ end
 
 //@@ unit group_get_pending_info fn src/storage/consumer_groups.rs ConsumerGroup::get_pending_info
 //@@   rewrite RT "let pending = self.pending.read().unwrap();" "let pending = &self.pending;"
@@ -374,8 +414,8 @@ impl ConsumerGroup {
 //@@   params drop "&self" add "&mut self"
 //@@   rewrite RT "let mut last_id = self.last_delivered_id.lock().unwrap();" "let last_id = &mut self.last_delivered_id;"
     fn set_id(&mut self, id: StreamId)
-        // C16 (XGROUP SETID): exactly the cursor moves
-        ensures final(self).last_delivered_id == id, final(self).pending == old(self).pending, final(self).consumers == old(self).consumers,
+        ensures // C16 (XGROUP SETID): exactly the cursor moves
+            final(self).last_delivered_id == id, final(self).pending == old(self).pending, final(self).consumers == old(self).consumers,
             final(self).consumer_count == old(self).consumer_count, final(self).total_pending == old(self).total_pending,
 //@@ body
 //@@ end
@@ -575,6 +615,38 @@ impl ConsumerGroup {
 //@@ end
 }
 
+/// MODEL of ConsumerGroupManager: the map behind `Arc<RwLock<HashMap<String, Arc<ConsumerGroup>>>>`, holding the group models directly
+pub struct ConsumerGroupManager {
+    pub groups: HashMap<String, ConsumerGroup>,
+}
+impl ConsumerGroupManager {
+//@@ unit mgr_create_group fn src/storage/consumer_groups.rs ConsumerGroupManager::create_group
+//@@   params drop "&self" add "&mut self"
+//@@   rewrite RT "let mut groups = self.groups.write().unwrap();" "let groups = &mut self.groups;"
+//@@   rewrite RT "Arc::new(ConsumerGroup::new(name.clone(), start_id))" "ConsumerGroup::new(name.clone(), start_id)"
+//@@   rewrite RT "\"BUSYGROUP Consumer Group name already exists\".to_string()" "verif_to_string(\"BUSYGROUP Consumer Group name already exists\")"
+    fn create_group(&mut self, name: String, start_id: StreamId) -> (r: Result<(), String>)
+        ensures
+            // C16 (XGROUP CREATE): an existing name is refused and nothing changes; otherwise exactly one group is added — empty, with
+            // its cursor at the start id — and every other group is untouched
+            old(self).groups@.contains_key(name) ==> r is Err && final(self).groups@ == old(self).groups@,
+            !old(self).groups@.contains_key(name) ==> r is Ok && final(self).groups@.dom() =~= old(self).groups@.dom().insert(name)
+                && final(self).groups@[name].gwf() && final(self).groups@[name].last_delivered_id == start_id
+                && final(self).groups@[name].pending.ids() =~= Map::<StreamId, PendingEntry>::empty() && final(self).groups@[name].consumers@ =~= Map::<String, Consumer>::empty()
+                && (forall|g: String| g != name && #[trigger] old(self).groups@.contains_key(g) ==> final(self).groups@[g] == old(self).groups@[g]),
+//@@ body
+//@@ end
+
+//@@ unit mgr_destroy_group fn src/storage/consumer_groups.rs ConsumerGroupManager::destroy_group
+//@@   params drop "&self" add "&mut self"
+//@@   rewrite RT "let mut groups = self.groups.write().unwrap();" "let groups = &mut self.groups;"
+    fn destroy_group(&mut self, name: &str) -> (r: bool)
+        ensures // C16 (XGROUP DESTROY): exactly the named group goes, and the reply says whether it existed
+            final(self).groups@ == old(self).groups@.remove(string_of(name@)), r == old(self).groups@.contains_key(string_of(name@)),
+//@@ body
+//@@ end
+}
+
 // ---------------------------------------------------------------------------------------------------------------------------
 // The stream side of XREADGROUP: what is read out of the stream for a group, and how the read is booked on the group
 //@@ item src/storage/stream.rs StreamRangeResult
@@ -674,11 +746,15 @@ fn verif_lookup_entries(data: &StreamData, ids: &Vec<StreamId>) -> (r: Vec<Strea
 //@@   rewrite? RT "entries.last()" "verif_last(&entries)"
 //@@   after "let entries = data.range_after"
 //@@|     let ghost es = data.entries@; let ghost cur = old(group).last_delivered_id;
+//@@|     let ghost s = choose|s: int| #[trigger] range_after_is(es, cur, maxc_of(count, es.len()), entries@, s);
 //@@|     proof {
-//@@|         let s = choose|s: int| #[trigger] range_after_is(es, cur, maxc_of(count, es.len()), entries@, s);
 //@@|         assert forall|i: int, j: int| 0 <= i < j < entries@.len() implies ids_of(entries@)[i] != ids_of(entries@)[j] by { assert(entries@[i] == es[s + i]); assert(entries@[j] == es[s + j]); }
 //@@|         if entries@.len() > 0 { assert(entries@[entries@.len() - 1] == es[s + entries@.len() - 1]); }
 //@@|     }
+//@@   at "Ok(pending_entries)"
+//@@|     proof { let r0: Result<Vec<StreamEntry>, String> = Ok(pending_entries); assert(range_after_is(es, cur, maxc_of(count, es.len()), r0->Ok_0@, s)); }
+//@@   at "Ok(entries)"
+//@@|     proof { let r0: Result<Vec<StreamEntry>, String> = Ok(entries); assert(range_after_is(es, cur, maxc_of(count, es.len()), r0->Ok_0@, s)); }
 fn read_group(data: &StreamData, group: &mut ConsumerGroup, consumer_name: &str, after_id: StreamId, count: Option<usize>, noack: bool) -> (r: Result<Vec<StreamEntry>, String>)
     requires old(group).gwf(), sorted_ids(data.entries@),
         // machine arithmetic: the counters do not wrap
@@ -687,23 +763,20 @@ fn read_group(data: &StreamData, group: &mut ConsumerGroup, consumer_name: &str,
     ensures r is Ok, final(group).gwf(),
         // C16: a read with an explicit id delivers nothing new — the group (cursor, pending set, counters, consumers) is untouched
         after_id.packed != u128::MAX ==> *final(group) == *old(group),
-        after_id.packed == u128::MAX ==> ({
-            let es = data.entries@; let cur = old(group).last_delivered_id; let out = r->Ok_0@;
-            // C16: a read with > returns the next entries after the group's cursor, in id order, skipping none, at most COUNT ...
-            &&& exists|s: int| #[trigger] range_after_is(es, cur, maxc_of(count, es.len()), out, s)
-            // ... and moves the cursor to the last entry returned, with or without NOACK, so that no later read returns it again
-            &&& (out.len() > 0 ==> final(group).last_delivered_id == out[out.len() - 1].id)
-            &&& (out.len() == 0 ==> *final(group) == *old(group))
-            // NOACK: nothing becomes pending, no counter and no consumer changes
-            &&& (noack ==> final(group).pending == old(group).pending && final(group).consumers == old(group).consumers
-                    && final(group).total_pending == old(group).total_pending && final(group).consumer_count == old(group).consumer_count)
-            // otherwise every returned entry is pending for the reader (and nobody else), the rest of the pending set is untouched
-            &&& (!noack && out.len() > 0 ==> {
-                    &&& (forall|x: StreamId| #[trigger] final(group).pending.ids().contains_key(x) <==> (old(group).pending.ids().contains_key(x) || ids_of(out).contains(x)))
-                    &&& (forall|x: StreamId| #[trigger] final(group).pending.ids().contains_key(x) ==> (if ids_of(out).contains(x) { final(group).pending.ids()[x].consumer == string_of(consumer_name@) } else { final(group).pending.ids()[x] == old(group).pending.ids()[x] }))
-                    &&& final(group).consumers@.dom() =~= old(group).consumers@.dom().insert(string_of(consumer_name@))
-                })
-        }),
+        // C16: a read with > returns the next entries after the group's cursor, in id order, skipping none, at most COUNT ...
+        after_id.packed == u128::MAX ==> exists|s: int| #[trigger] range_after_is(data.entries@, old(group).last_delivered_id, maxc_of(count, data.entries@.len()), r->Ok_0@, s),
+        // ... and moves the cursor to the last entry returned, with or without NOACK, so that no later read returns it again
+        after_id.packed == u128::MAX && r->Ok_0@.len() > 0 ==> final(group).last_delivered_id == r->Ok_0@[r->Ok_0@.len() - 1].id,
+        after_id.packed == u128::MAX && r->Ok_0@.len() == 0 ==> *final(group) == *old(group),
+        // NOACK: nothing becomes pending, no counter and no consumer changes
+        after_id.packed == u128::MAX && noack ==> final(group).pending == old(group).pending && final(group).consumers == old(group).consumers
+                && final(group).total_pending == old(group).total_pending && final(group).consumer_count == old(group).consumer_count,
+        // otherwise every returned entry is pending for the reader (and nobody else), the rest of the pending set is untouched
+        after_id.packed == u128::MAX && !noack && r->Ok_0@.len() > 0 ==>
+            (forall|x: StreamId| #[trigger] final(group).pending.ids().contains_key(x) <==> (old(group).pending.ids().contains_key(x) || ids_of(r->Ok_0@).contains(x))),
+        after_id.packed == u128::MAX && !noack && r->Ok_0@.len() > 0 ==>
+            (forall|x: StreamId| #[trigger] final(group).pending.ids().contains_key(x) ==> (if ids_of(r->Ok_0@).contains(x) { final(group).pending.ids()[x].consumer == string_of(consumer_name@) } else { final(group).pending.ids()[x] == old(group).pending.ids()[x] })),
+        after_id.packed == u128::MAX && !noack && r->Ok_0@.len() > 0 ==> final(group).consumers@.dom() =~= old(group).consumers@.dom().insert(string_of(consumer_name@)),
 //@@ body
 //@@ end
 
